@@ -26,7 +26,7 @@ def Agrees {α : Type} (g : α × Option String) (r : Res α) : Prop :=
   | some e, .err e' => e = e'
   | _, _ => False
 
-def errOf {α : Type} : Res α → Option String
+def t3ErrOf {α : Type} : Res α → Option String
   | .ok _ => none
   | .err e => some e
   | .panic p => some p        -- not used: panics are propagated by the operations, never returned as errors
@@ -66,7 +66,7 @@ def modelOps (indef : Int) (curve : Res Int) (now : Int) : Generated3.CtlOps Wor
     | some ft => (.ok (supports w.fan w.dev ft), w)
     | none => (.ok false, w)
   fan_GetPwm := fun w => goRead 0 (fanGetPwm w.dev) w
-  fan_SetPwm := fun v w => let (d', r) := fanSetPwm w.dev v; (.ok (errOf r), { w with dev := d' })
+  fan_SetPwm := fun v w => let (d', r) := fanSetPwm w.dev v; (.ok (t3ErrOf r), { w with dev := d' })
   fan_GetMinPwm := fun w => (.ok w.fan.getMin, w)
   fan_GetMaxPwm := fun w => (.ok w.fan.getMax, w)
   fan_GetRpm := modelGetRpm
@@ -74,7 +74,7 @@ def modelOps (indef : Int) (curve : Res Int) (now : Int) : Generated3.CtlOps Wor
   fan_SetRpmAvg := fun x w => (.ok (), { w with fan := w.fan.setRpmAvg indef x })
   fan_ShouldNeverStop := fun w => (.ok w.fan.neverStop, w)
   fan_SetPwmEnabled := fun v w => match setPwmEnabled w.fan w.dev v with
-    | (d', r, _) => (.ok (errOf r), { w with dev := d' })
+    | (d', r, _) => (.ok (t3ErrOf r), { w with dev := d' })
   fan_UpdateFanRpmCurveValue := modelUpdateCurveValue
   curve_Evaluate := goRead 0 curve
   controlLoop_Cycle := fun t c w =>
